@@ -51,14 +51,18 @@
 (*     the definition's referenceable version").                           *)
 (*  P3 Restart - "Referenceable version changed; stopped ... controller":  *)
 (*     Start is only called while nothing runs under the name (.StopFirst);*)
-(*     outside the deletion branch Stop is only called because the recorded*)
-(*     type differs from the desired one (.OnlyOnChange).  Two controllers *)
-(*     for one XRD cannot exist by the engine contract (one per name).     *)
+(*     outside the deletion branch a controller that runs for the desired  *)
+(*     version and is recorded so is not stopped (.NoNeedlessStop).  Two   *)
+(*     controllers for one XRD cannot exist by the engine contract (one    *)
+(*     per name).                                                          *)
 (*  P4 Faithful - every CRD write carries exactly the rendering of the XRD *)
 (*     this reconcile read (.Write); resourceVersion-checked XRD writes    *)
 (*     never change the spec (.XrdSpecKept: no lost update); after a       *)
 (*     settled reconcile the CRD corresponds to the current XRD            *)
-(*     (AfterReconcile.Crd).                                               *)
+(*     (AfterReconcile.Crd).  "Corresponds" includes the controller        *)
+(*     reference: it must name the CURRENT XRD object (uid) - judged also  *)
+(*     across Recreate (same name, new uid, generation 1, other spec) with *)
+(*     the reconciler objects kept alive.                                  *)
 (*  P5 Foreign (C02 placement) - a CRD controlled by somebody else is      *)
 (*     never written (.Untouched) and the reconcile ends in an error       *)
 (*     (.Surfaces).  NOT promised: a condition (the code only emits an     *)
@@ -82,7 +86,7 @@
 (*                                                                         *)
 (* FINDINGS OF THE MODEL (TLC, cfg MCXrdLifecycle_witness_asis; replayed   *)
 (* on the real reconcilers, see checks/x02.py):                            *)
-(*  D16 the status update after Start / StartWatches fails (any error, or  *)
+(*  D17 the status update after Start / StartWatches fails (any error, or  *)
 (*      the Conflict the OTHER reconciler's write to the same XRD causes,  *)
 (*      fault-free): the controller runs, the type is not recorded; the    *)
 (*      IsRunning branch never records it, and with an empty recorded type *)
@@ -93,7 +97,7 @@
 (*      a restart whose status update fails: v2 runs, v1 stays recorded    *)
 (*      and is trusted.  FixTypeRef = candidate repair ("record, then      *)
 (*      start", see NeedStop / Record).                                    *)
-(*  D17 StartWatches fails after Start succeeded: the next reconcile finds *)
+(*  D18 StartWatches fails after Start succeeded: the next reconcile finds *)
 (*      the controller running and reports Watching although no watch was  *)
 (*      ever started.  CondTruth.Watches, AfterReconcile.Watches.          *)
 (*      FixWatches = candidate repair (StartWatches in the running branch).*)
@@ -109,8 +113,8 @@ CONSTANTS
   Interleave,       \* TRUE: the two reconcilers run concurrently (call granularity)
   MidEnv,           \* TRUE: the environment also acts in the middle of reconciles
   WaitEstablished,  \* TRUE = the code; FALSE switches the "wait until Established" guard off (witness)
-  FixTypeRef,       \* FALSE = the code; TRUE = candidate repair of D16
-  FixWatches        \* FALSE = the code; TRUE = candidate repair of D17
+  FixTypeRef,       \* FALSE = the code; TRUE = candidate repair of D17
+  FixWatches        \* FALSE = the code; TRUE = candidate repair of D18
 
 A == {"def", "off"}
 Oth(a) == IF a = "def" THEN "off" ELSE "def"
@@ -329,7 +333,7 @@ UpdateCrd(a) ==
   /\ UNCHANGED <<xrd, dirty, cdirty, envs, quiet>>
 
 \* ---- local decision (no call): restart on a version change, skip the start if the engine runs the controller
-\* FixTypeRef (candidate repair of D16): "record, then start" - whenever the recorded type is not the desired one the
+\* FixTypeRef (candidate repair of D17): "record, then start" - whenever the recorded type is not the desired one the
 \* controller is stopped (a no-op if nothing runs), the desired type is recorded (condition withdrawn), and only then is
 \* the new controller started; so whatever runs was recorded before it started.
 NeedStop(a) == IF FixTypeRef THEN loc[a].type # loc[a].ver
@@ -407,7 +411,7 @@ Spec == Init /\ [][Next]_vars
 SafeNames == {"StartOnlyEstablished", "Restart.StopFirst", "FinalizerFirst", "CondTruth.Running",
               "AfterReconcile.Crd", "AfterReconcile.Running", "AfterReconcile.Cond", "AfterReconcile.Finalizer"}
 Safe == bad \cap SafeNames = {}
-\* what it does not keep (D16, D17): expected to FAIL for the code as written, to hold with the repairs
+\* what it does not keep (D17, D18): expected to FAIL for the code as written, to hold with the repairs
 Converges == bad \ SafeNames = {}
 AllGood == bad = {}
 \* a controlled-by-somebody-else CRD is never written; XRD writes never touch the spec (resourceVersion check)
